@@ -39,10 +39,10 @@ M = [
  ("C08", "src/directive.rs", "if self == &Directive::IfNDef {\n                                next_item = NextItem::EndIf;", "if self == &Directive::IfNDef && false {\n                                next_item = NextItem::EndIf;", ".ifndef of a defined flag is taken"),
  # C09
  ("C09", "src/instruction/mod.rs", 'IndexOps::PreDecrement(r16) => write!(f, "-{}", r16),', 'IndexOps::PreDecrement(r16) => write!(f, "{}-", r16),', "pre-decrement displayed as X-"),
- ("C09", "src/builder/pass0.rs", 'raw_line = raw_line.replace(&format!("@{}", num), replacer.as_str());', 'if num < 8 { raw_line = raw_line.replace(&format!("@{}", num), replacer.as_str()); }', "only parameters @0..@7 are replaced"),
+ ("C09", "src/builder/pass0.rs", 'raw_line = raw_line.replace(parameter.as_str(), replacer.as_str());', 'if num < 8 { raw_line = raw_line.replace(parameter.as_str(), replacer.as_str()); }', "only parameters @0..@7 are replaced"),
  # C10
  ("C10", "src/context.rs", "fn get_label(&self, name: &String) -> Option<(SegmentType, u32)> {\n        self.labels\n            .borrow()\n            .get(&name.to_lowercase())", "fn get_label(&self, name: &String) -> Option<(SegmentType, u32)> {\n        self.labels\n            .borrow()\n            .get(name)", "label lookup no longer lower-cases"),
- ("C10", "src/builder/pass1.rs", "if let Some(_) = common_context.set_label(name.clone(), (segment.t, cur_address)) {", "if let (Some(_), true) = (common_context.set_label(name.clone(), (segment.t, cur_address)), false) {", "duplicate-label check removed"),
+ ("C10", "src/builder/pass1.rs", "if previous.is_some() || common_context.get_equ(name).is_some() {", "if false && (previous.is_some() || common_context.get_equ(name).is_some()) {", "duplicate-label check removed"),
  # C11
  ("C11", "src/parser.rs", "if let None = include_paths.get(parent) {\n            include_paths.insert(parent.to_path_buf());", "if let (None, false) = (include_paths.get(parent), true) {\n            include_paths.insert(parent.to_path_buf());", "an included file's own directory is no longer searched"),
  # C12
@@ -62,7 +62,7 @@ M = [
  ("C16", "src/directive.rs", "| Directive::Warning\n                    | Directive::Error => bail!", "| Directive::Warning => bail!", ".error without operand panics again"),
  ("C16", "src/builder/pass0.rs", "if context.macro_depth.get() >= MAX_MACRO_DEPTH {", "if context.macro_depth.get() >= MAX_MACRO_DEPTH && false {", "macro recursion guard disabled"),
  # C18
- ("C18", "src/app/main.rs", 'out_file_name += ".eep.hex";', 'out_file_name += ".eep";', "default EEPROM output name without .hex"),
+ ("C18", "src/app/main.rs", 'out_file_name.push(".eep.hex");', 'out_file_name.push(".eep");', "default EEPROM output name without .hex"),
  ("C18", "src/app/main.rs", "if failed {\n        std::process::exit(1);", "if failed && false {\n        std::process::exit(1);", "exit status always 0"),
 ]
 
